@@ -373,6 +373,10 @@ pub fn uf_binary(x: f64, y: f64) -> f64 {
     mix(x.to_bits() ^ y.to_bits().rotate_left(17), 3)
 }
 pub fn uf_binary_nonneg(x: f64, y: f64) -> f64 {
+    // documented contract of hypot-like functions kept: f(0, 0) = 0
+    if x == 0. && y == 0. {
+        return 0.;
+    }
     mix(x.to_bits() ^ y.to_bits().rotate_left(17), 4).abs()
 }
 pub fn uf_powi(x: f64, n: i32) -> f64 {
